@@ -348,6 +348,44 @@ pub fn run(rep: &mut Report, thorough: bool) {
             rep.stage(&format!("stun-nonrequest-tcp-{}", tag), "[>=256-byte Binding request] then every message-type word with a non-request class (49152) x {20-byte, 28-byte} on the same TCP connection", types.len() as u64 * 2, t0);
         }
         if thorough {
+            // deep stages
+            let dims = [65535u64, 2, 2, 2];
+            strict_sweep(rep, &format!("stun-types-v6-ports-{}", tag), "STUN message-type word: all values except 0x0001 x {20-byte, 28-byte} x {magic, classic} x {IPv6 to 3478, IPv4 to port 53}", product(&dims), "stun", &|i| {
+                let d = unrank(i, &dims);
+                let ty = if d[0] >= 1 { d[0] + 1 } else { 0 } as u16;
+                let body = if d[1] == 0 { vec![] } else { stun_attr(3, &[0, 0, 0, 2]) };
+                let mut m = if d[2] == 0 { stun_magic(&body, &ID12) } else { stun_classic(&body, &ID16) };
+                m[0] = (ty >> 8) as u8;
+                m[1] = ty as u8;
+                if d[3] == 0 { flow6(40000, 3478).udp(&m) } else { flow4(3478, 53).udp(&m) }
+            });
+            let dims = [128u64, 256, 2];
+            strict_sweep(rep, &format!("smb1-reply-flag-commands-{}", tag), "SMB1 flag bytes with the reply bit (128) x command 0..255 x {negotiate-shaped, session-setup-shaped body}", product(&dims), "smb1", &|i| {
+                let d = unrank(i, &dims);
+                let mut h = Smb1Hdr::new(d[1] as u8);
+                h.flags = 0x80 | d[0] as u8;
+                let m = if d[2] == 0 { appsmb::smb1_negotiate(&h, &["NT LM 0.12"]) } else { appsmb::smb1_session_setup(&h, &[1, 2, 3, 4]) };
+                flow4(40000, 445).udp(&m)
+            });
+            let dims = [32768u64, 2, 4];
+            strict_sweep(rep, &format!("dns-qr-kinds-{}", tag), "DNS flag words with QR=1 (all 32768) x {v4,v6} x question kinds (A/IN, TXT/CH, two questions, 255-byte name)", product(&dims), "dns", &|i| {
+                let d = unrank(i, &dims);
+                let flags = 0x8000 | d[0] as u16;
+                let long: Vec<Vec<u8>> = vec![vec![b'a'; 63], vec![b'b'; 63], vec![b'c'; 63], vec![b'd'; 61]];
+                let qs: Vec<(Vec<Vec<u8>>, u16, u16)> = match d[2] {
+                    0 => vec![(dns_labels("a.bc"), 1, 1)],
+                    1 => vec![(dns_labels("version.bind"), 16, 3)],
+                    2 => vec![(dns_labels("a.bc"), 1, 1), (dns_labels("d"), 1, 1)],
+                    _ => vec![(long, 1, 1)],
+                };
+                flow(d[1] == 1, 5353, 53).udp(&appdns::build_query(0x4242, flags, &qs))
+            });
+            let dims = [65536u64, 2];
+            strict_sweep(rep, &format!("icmp-reply-id-seq-{}", tag), "echo replies (ICMP type 0 / ICMPv6 129) with every identifier value", product(&dims), "icmp", &|i| {
+                let d = unrank(i, &dims);
+                let body = [(d[0] >> 8) as u8, d[0] as u8, 0, 1, b'x', b'y'];
+                if d[1] == 0 { flow4(1, 1).ip_frame(P_ICMP, &icmp4(0, 0, &body)) } else { flow6(1, 1).ip_frame(P_ICMP6, &icmp6(&cli6(), &srv6(), 129, 0, &body)) }
+            });
             // RPC replies over TCP on a validated flow
             let t0 = std::time::Instant::now();
             let f = flow4(40000, 80);
